@@ -82,10 +82,19 @@ class BaseRandomLineAccessFile(collections.abc.Sequence, Generic[C], ABC):
             # of the index and nobody else (random access, another iteration) moved the file cursor in the meantime.
             reader = object()
             for n in range(len(self)):
+                # the iteration may continue in a forked process, the reopened handle starts at the beginning of the file
+                self.reopen_if_needed()
                 if not self._sequential_index or self._last_sequential_reader is not reader:
                     self._file_seek(self._lines[n])
                     self._last_sequential_reader = reader
                 yield self._read_next_line()
+
+    def reopen_if_needed(self):
+        """
+        Reopens the file when it is used in another process than the one that opened it.
+        The base implementation does nothing.
+        """
+        pass
 
     @abstractmethod
     def _file_seek(self, offset: int):
@@ -272,6 +281,8 @@ class RandomLineAccessFile(BaseRandomLineAccessFile[str]):
             # we don't want to open it when the file was not open yet to prevent accidental open
             self.close()
             self.open()
+            # the cursor of the new handle is not where a running iteration left the old one
+            self._last_sequential_reader = None
 
     @property
     def closed(self) -> bool:
